@@ -641,7 +641,7 @@ func doFlow(ip *layers.IPv4, d []byte) string {
 		}
 	}
 	lib.Stat("flow")
-	return "flow src=" + lib.Hex(src.Raw()) + " dst=" + lib.Hex(dst.Raw())
+	return fmt.Sprintf("flow typ=%d src=%s dst=%s", int64(f.EndpointType()), lib.Hex(src.Raw()), lib.Hex(dst.Raw()))
 }
 
 // doRtd: decode -> SerializeTo(fix, csum) over the decoded payload -> decode again.
